@@ -374,6 +374,9 @@ def _obligations(tier, seed):
         add(d, "Automatic", ("Ramp", "Ramp"), (0, 1, 0), "Maximum")
         add(d, "Automatic", ("Ramp", "Ramp"), (0, 1, 0), None)
         add(d, "Automatic", ("Ramp", "SShape"), (0, 1), None, batch=2)
+        # batch degrees in which a term that is infinite at degree 0 is activated in one row and not in another
+        add(d, "Automatic", ("Sigmoid", "Ramp"), (0, 1), None, batch=2)
+        add(d, "Tsukamoto", ("Concave", "Sigmoid"), (0, 1, 0), "Maximum", batch=2)
         add(d, "Automatic", ("Triangle", "Triangle"), (0, 1), None)
         add(d, "Automatic", ("Triangle",), (0, 0), "AlgebraicSum")
         add(d, "Tsukamoto", ("Ramp", "ZShape"), (0, 1, 1), "Maximum")
